@@ -1616,6 +1616,10 @@ class ContractionTree:
 
         # make sure all flops and size information has been populated
         tree.contract_stats()
+        # n.b. nodes created with pre-computed legs, flops and size might not
+        # have this cached yet, it is needed *before* the leaves are updated
+        for node in tree.children:
+            tree.get_involved(node)
 
         d = tree.size_dict[ind]
         if project is None:
